@@ -469,6 +469,10 @@ type Slice struct {
 	// LenRef, if set, names "the slice held by the cell this value was loaded from"
 	// (see tagSliceSource); an index carrying LtLen == LenRef is in bounds.
 	LenRef *Object
+	// CapKnown/Cap: the capacity (elements from Off to the end of the backing storage, or to the third slicing
+	// index) when it is a known constant; append stores in place while Len+n <= Cap and allocates otherwise
+	CapKnown bool
+	Cap      int64
 }
 
 type Iface struct {
